@@ -1,6 +1,8 @@
 import ZapVerif.Drv.Util
 import ZapVerif.Model.GoMini
 import ZapVerif.Model.TransJsonSepX
+import ZapVerif.Model.TransSamplerX
+import ZapVerif.Model.TransMultiWSX
 import ZapVerif.Gen.TransProbe
 /-! `zvdrv CTR`: the interpreter side of the translator's differential test.  An op names a generated table and a
     function, gives arguments and receiver fields; the handler runs the GENERATED term in the GoMini interpreter
@@ -32,9 +34,17 @@ def jenv (e : Env) : Json := Json.arr (e.map fun (k, v) => obj [("n", Json.str k
 def parseEnv (j : Json) (k : String) : R Env :=
   (arrD j k).toList.mapM fun e => do return (← str e "n", ← parseVal (← fld e "v"))
 
-def tables : List (String × Ctx) := [
-  ("TransProbe", { ext := fun _ _ => none, funs := ZapVerif.Gen.TransProbe.funs }),
-  ("TransJsonSep", ZapVerif.TransJsonSep.X)
+/-- pseudo-field `#enabled`: the levels the wrapped core of a sampler enables (a parameter of the context) -/
+def enabledOf (flds : Env) : Int → Bool :=
+  match flds.get "#enabled" with
+  | some (.list ls) => fun l => ls.any fun | .int x => x == l | _ => false
+  | _ => fun _ => true
+
+def tables : List (String × (Env → Ctx)) := [
+  ("TransProbe", fun _ => { ext := fun _ _ => none, funs := ZapVerif.Gen.TransProbe.funs }),
+  ("TransJsonSep", fun _ => ZapVerif.TransJsonSep.X),
+  ("TransSampler", fun e => ZapVerif.TransSampler.X (enabledOf e)),
+  ("TransMultiWS", fun _ => ZapVerif.TransMultiWS.X)
 ]
 
 def panicName : Panic → String
@@ -45,9 +55,10 @@ def panicName : Panic → String
 def handle (op : Json) : R Json := do
   let t ← str op "t"
   let f ← str op "f"
-  let some X := tables.lookup t | throw s!"unknown table {t}"
+  let some mk := tables.lookup t | throw s!"unknown table {t}"
   let args ← (arrD op "args").toList.mapM parseVal
   let flds ← parseEnv op "flds"
+  let X := mk flds
   match run X (natD op "fuel" 100000) f args flds with
   | .done rs fl => return obj [("res", Json.arr (rs.map jval).toArray), ("flds", jenv fl)]
   | .panic p => return obj [("panic", Json.str (panicName p))]
